@@ -105,7 +105,8 @@ Inductive dexpr : Type :=
 | DConcat (l : list dexpr)
 | DZext (w : nat) (a : dexpr)
 | DSext (w : nat) (a : dexpr)
-| DCall (f : nat) (a : dexpr).
+| DCall (f : nat) (a : dexpr)
+| DAdd (a b : dexpr).
 
 Inductive sstmt : Type :=
 | SData (x : nat) (e : dexpr)                                   (* data local := e *)
@@ -186,6 +187,9 @@ Section Flat.
     | DZext w a => match fexpr pv a with Some (a', t) => Some (EZext w a', t) | None => None end
     | DSext w a => match fexpr pv a with Some (a', t) => Some (ESext w a', t) | None => None end
     | DCall f a => match fexpr pv a with Some (a', t) => Some (ECall f a', t) | None => None end
+    | DAdd a b => match fexpr pv a, fexpr pv b with
+                  | Some (a', t1), Some (b', t2) => Some (EAdd a' b', t1 ++ t2)
+                  | _, _ => None end
     end.
 
   Definition clear_of_fields (r off n : nat) : bool := negb (existsb (overlaps r off n) fields).
